@@ -28,6 +28,8 @@ func Typecheck(processes []*Process, assumedFreeNames []Name, globalEnv *GlobalE
 }
 
 func typecheckFunctionsAndProcesses(processes []*Process, assumedFreeNames []Name, globalEnv *GlobalEnvironment, errorChan chan error, doneChan chan bool) {
+	defer simRecoverTypecheck()
+
 	defer func() {
 		// No error found, notify parent
 		doneChan <- true
